@@ -42,7 +42,7 @@ def probes(rng, n_random):
         add("arrival_behavior " + b, INVALID)
         add("frequency " + b, INVALID)
         add("quarantine_directions N," + b, INVALID)
-    for good in ["cauchy", "exponential", "weibull", "normal", "lognormal", "logistic", "gamma", "uniform", "deterministic-neighbor", "network"]:
+    for good in ["cauchy", "exponential", "weibull", "normal", "log-normal", "power-law", "hyperbolic-secant", "exponential-power", "logistic", "gamma", "uniform", "deterministic-neighbor", "network"]:
         add("kernel_type " + good, None)
     for good in ["N", "NE", "E", "SE", "S", "SW", "W", "NW", "none", "None"]:
         add("direction " + good, None)
